@@ -285,7 +285,8 @@ UpdateEdge(c, q) ==
   /\ LET other == IF c = "c1" THEN "d1" ELSE "c1"
          \* historic deviation: a derived circuit referenced the attribute dicts of its base's edges
          both == "DerivedSharesEdgeDicts" \in Dev /\ c \in {"c1", "d1"} /\ dhas
-     IN ce' = [cc \in CircIds |-> IF cc = c \/ (both /\ cc = other) THEN [ce[cc] EXCEPT ![q].w = 50 + q] ELSE ce[cc]]
+     IN ce' = [cc \in CircIds |-> IF cc = c \/ (both /\ cc = other /\ q <= Len(ce[cc]) /\ q <= Len(CircEdges0["c1"]))
+                                    THEN [ce[cc] EXCEPT ![q].w = 50 + q] ELSE ce[cc]]
   /\ last' = NoObs
   /\ tr' = Append(tr, [a |-> "update_edge", c |-> c, vec |-> FALSE, clr |-> FALSE, node |-> q, var |-> "weight", val |-> 50 + q, dec |-> FALSE])
   /\ UNCHANGED <<tv, od, cn, opCache, nodeCache, stash, yhot, yhas, yfresh, hasIr, dhas, alias, handles, fired>>
@@ -339,13 +340,14 @@ ClearModel(c) ==       \* pyrates.clear(model): model.clear() if it holds an IR 
   /\ tr' = Append(tr, [a |-> "clear_model", c |-> c, vec |-> FALSE, clr |-> FALSE, node |-> 0, var |-> "", val |-> 0, dec |-> FALSE])
   /\ UNCHANGED <<tv, od, cn, ce, yhas, yfresh, dhas, alias, handles, fired>>
 
-Derive ==              \* d1 = c1.update_template(name='d1'): a new circuit object that references c1's node templates and edges
+ExtraEdge == [s |-> 2, t |-> 3, w |-> 2]     \* the edge a derivation may add (b -> c, same edge template as c1's edges)
+Derive(withEdge) ==    \* d1 = c1.update_template(name='d1' [, edges=[extra]]): a new circuit object that references c1's node templates
   /\ "derive" \in Calls
-  /\ cn' = [cn EXCEPT !["d1"] = cn["c1"]] /\ ce' = [ce EXCEPT !["d1"] = ce["c1"]]
+  /\ cn' = [cn EXCEPT !["d1"] = cn["c1"]] /\ ce' = [ce EXCEPT !["d1"] = ce["c1"] \o (IF withEdge THEN <<ExtraEdge>> ELSE <<>>)]
   /\ stash' = [stash EXCEPT !["d1"] = NoStash] /\ hasIr' = [hasIr EXCEPT !["d1"] = FALSE]
   /\ dhas' = TRUE /\ alias' = [j \in 1..3 |-> cn["c1"][j].own]
   /\ last' = NoObs
-  /\ tr' = Append(tr, [a |-> "derive", c |-> "d1", vec |-> FALSE, clr |-> FALSE, node |-> 0, var |-> "", val |-> 0, dec |-> FALSE])
+  /\ tr' = Append(tr, [a |-> "derive", c |-> "d1", vec |-> withEdge, clr |-> FALSE, node |-> 0, var |-> "", val |-> 0, dec |-> FALSE])
   /\ UNCHANGED <<tv, od, opCache, nodeCache, yhot, yhas, yfresh, handles, fired>>
 
 CallEarlier(hd) ==     \* evaluate a function returned by an earlier compile: it keeps computing its own model
@@ -357,7 +359,7 @@ CallEarlier(hd) ==     \* evaluate a function returned by an earlier compile: it
 Next ==
   \/ \E c \in Circs, vec \in BOOLEAN, clr \in BOOLEAN, dec \in BOOLEAN, inp \in BOOLEAN : Compile(c, vec, clr, dec, inp)
   \/ LoadYaml
-  \/ Derive
+  \/ \E withEdge \in BOOLEAN : Derive(withEdge)
   \/ \E c \in Circs : ClearModel(c)
   \/ \E c \in Circs, vec \in BOOLEAN : \E sel \in 0..Len(cn[c]) : \E var \in VarNames, arr \in BOOLEAN, zero \in BOOLEAN :
          (arr => sel = 0) /\ (zero => "zero" \in Calls) /\ CompileNV(c, sel, var, arr, zero, vec)
@@ -409,7 +411,7 @@ LoadYieldsFile ==
 (* C13 / C14: deriving a circuit leaves every other circuit as it was; the derived one means what its base means *)
 DeriveCopies ==
   [][ (tr' # tr /\ tr'[Len(tr')].a = "derive") =>
-        /\ Meaning("d1")' = [i \in 1..Len(cn["c1"]) |-> Meaning("c1")[i]]
+        /\ \A i \in 1..Len(cn["c1"]) : \A v \in VarNames : Meaning("d1")'[i][v] = Meaning("c1")[i][v]
         /\ \A c \in CircIds \ {"d1"} : Meaning(c)' = Meaning(c) ]_vars
 ReadOnlyPreservesMeaning ==
   [][ (tr' # tr /\ tr'[Len(tr')].a \in ReadOnlyKinds) => \A c \in CircIds : Meaning(c)' = Meaning(c) ]_vars
